@@ -112,6 +112,9 @@ META["rule"] += (
 META["rule"] += (
     " " + 'Added after the fifth round: with missing values and a non-supremum metric every complete tie-free row of a local-rate plot keeps exactly int(r(N-1)) recurrences; switches as bool / np.bool_ / 0-1; a fifth of the large cases have 513 / 515 / 1027 states.')
 
+META["rule"] += (
+    " " + "Added after the sixth round: the matrix handed out before a setter and a shallow copy of the object keep the old matrix; after a setter of another kind the object is set back to its constructor's setting (A-B-A, objects without missing values).")
+
 HIST = ("diagline_dist", "vertline_dist", "white_vertline_dist")
 
 
@@ -575,11 +578,27 @@ def check_single(ctx, mods, cname, x, metric, mode, value, dim, tau,
             skw["order"] = r.permutation(E.shape[0])
             stags = stags + ["order"]
             ctx.count("adaptive_with_order")
+        # the matrix the caller was handed before the setter runs, and a
+        # shallow copy of the object: both keep describing the old matrix
+        import copy as _copy
+        okh, held_R = ctx.call(obj.recurrence_matrix)
+        held_snap = np.array(held_R, copy=True) if okh else None
+        twin = _copy.copy(obj) if r.random() < 0.5 else None
         ok, res = ctx.call(getattr(obj, "set_fixed_" + smode
                                    if smode != "adaptive_neighborhood_size"
                                    else "set_" + smode), sval, **skw)
         ctx.evals()
         ctx.count("setter_cases")
+        if okh and ok:
+            ctx.count("matrix_held_across_setter")
+            tR = None if twin is None else np.asarray(
+                twin.recurrence_matrix())
+            if not np.array_equal(np.asarray(held_R), held_snap) or (
+                    tR is not None and not np.array_equal(tR, held_snap)):
+                ctx.violation(sig(cname, "set_" + smode,
+                                  "edits-the-matrix-handed-out-before",
+                                  stags), {**case, "setter": smode,
+                                           "setter_value": sval}, cid)
         scase = {**case, "setter": smode, "setter_value": sval,
                  **{k: v.tolist() for k, v in skw.items()}}
         if not ok:
@@ -589,6 +608,23 @@ def check_single(ctx, mods, cname, x, metric, mode, value, dim, tau,
             return obj
         judge_single(ctx, obj, cname, E, metric, smode, sval, missing, stags,
                      scase, cid, r, exact, tol, rqa=False)
+        if smode != mode and not missing and r.random() < 0.6:
+            # ... and back to the setting the object was built with, by its
+            # setter and with the same value (A-B-A)
+            ok, res = ctx.call(getattr(
+                obj, "set_fixed_" + mode
+                if mode != "adaptive_neighborhood_size" else "set_" + mode),
+                value)
+            ctx.evals()
+            ctx.count("back_to_the_first_setting")
+            btags = tags + ["after-setter", "back-to-first-setting"]
+            if not ok:
+                ctx.violation(sig(cname, "set_" + mode,
+                                  f"raises:{type(res).__name__}", btags),
+                              {**scase, "exc": repr(res)}, cid)
+                return obj
+            judge_single(ctx, obj, cname, E, metric, mode, value, missing,
+                         btags, scase, cid, r, exact, tol, rqa=False)
     return obj
 
 
